@@ -382,3 +382,16 @@ func LoadCorpus[T any](stream string) []T {
 
 	return cases
 }
+
+// RealBytes renders content c for the composition streams with cross-source route conflicts: one rule "r<c>" whose
+// path is shared by the contents of one conflict class ((c-1) mod 4), so that two sources holding contents of the same
+// class — or the same content — compete for one path: the repository accepts only the one that came first.
+func RealBytes(c int, rejected bool) []byte {
+	authn := "a"
+	if rejected {
+		authn = UnknownMechanism
+	}
+
+	return []byte(fmt.Sprintf("version: %q\nname: rs%d\nrules:\n- id: r%d\n  match:\n    routes:\n      - path: /x%d/:y\n  execute:\n    - authenticator: %s\n",
+		config.CurrentRuleSetVersion, c, c, (c-1)%4, authn))
+}
